@@ -37,15 +37,17 @@ pub static STATE: Mutex<State> = Mutex::new(State {
     counter: 0,
 });
 
-pub fn os_fill(buf: &mut [u8]) {
+/// fill from the operating system; false if the OS source reports failure (as under the syscall-level shim)
+pub fn os_fill(buf: &mut [u8]) -> bool {
     let mut off = 0;
     while off < buf.len() {
         let r = unsafe { libc::getrandom(buf[off..].as_mut_ptr().cast(), buf.len() - off, 0) };
         if r < 0 {
-            panic!("harness: OS getrandom failed");
+            return false;
         }
         off += r as usize;
     }
+    true
 }
 
 pub fn reset(source: Source, record: bool, fail_at: Option<usize>, partial: bool) {
@@ -87,7 +89,14 @@ unsafe extern "Rust" fn __getrandom_v03_custom(dest: *mut u8, len: usize) -> Res
         return Err(getrandom::Error::new_custom(0x5eed));
     }
     match &mut s.source {
-        Source::Os => os_fill(buf),
+        Source::Os => {
+            if !os_fill(buf) {
+                if s.record {
+                    s.log.push(DrawLog { len, ok: false, val: Vec::new() });
+                }
+                return Err(getrandom::Error::new_custom(0x05));
+            }
+        }
         Source::Script(f) => {
             let v = f(idx, len);
             assert_eq!(v.len(), len, "scripted draw has the wrong length");
